@@ -23,7 +23,7 @@ def specs_for(ctx):
         res = ctx.mc("MC_Interfaces", ctx.pick("MC_Interfaces_k13.cfg", "MC_Interfaces_k0137.cfg"),
                      env={"BASE_FILE": os.path.join(core.VERIF, "models", "catalogue", b + ".json")}, timeout=3000)
         insts = [i for i in res.printed if i["ninternal"] > 0 and i["k"] >= 1]
-        stride = ctx.pick(2, 1) if b != "irregular" else 24
+        stride = ctx.pick(2, 1) if b != "irregular" else 96
         for inst in insts[rng.randrange(stride)::stride]:
             ninst += 1
             ncell = len(inst["cells"])
@@ -36,7 +36,7 @@ def specs_for(ctx):
                           "ids": {"offset": rng.choice([0, 3, 40]), "stride": rng.choice([1, 2]), "shuffle": rng.random() < 0.7},
                           "group": {"flips": {str(c): rng.random() < 0.5 for c in range(ncell)},
                                     "shifts": {str(c): rng.randrange(4) for c in range(ncell)}}})
-    for i in range(ctx.pick(40, 1500)):
+    for i in range(ctx.pick(40, 600)):
         k = rng.choice([1, 2, 3, 4, 7, 9, 15])
         specs.append({"tissue": {"kind": "equilibrium", "ncells": rng.choice([6, 12, 20, 35]), "mobius": rng.choice([0.0, 0.5, 1.0, 1.5])},
                       "k": k, "seed": rng.randrange(10 ** 9), "want": ["C04"],
